@@ -218,6 +218,9 @@ def run_measure(inp):
         return out
     p = gen.calls[0]
     t_new = mps.tensors[site]
+    # hypothesis of `measure_global` (Props/C12.lean): `measure` replaces tensors[site] only, so the other tensors are the
+    # ones present at the `choice` call — sites left of `site` must be left-isometric, sites right of it right-isometric
+    canon_hypothesis(mps, site, L)
     edge = bool(0.0 < p[a] < 1e-12)
     scale = np.sqrt(p[a])
     if p[a] == 0.0 and bool(np.all(np.isnan(t_new) | np.isinf(t_new) | (t_new == 0))):
@@ -503,8 +506,32 @@ def run(inp):
     raise ValueError(k)
 
 
+CANON = {"n": 0, "bad": 0, "worst": 0.0, "detail": ""}
+
+
+def canon_hypothesis(mps, site, L):
+    """mixed-canonical form around the measured site on the real tensors (inputs come in right-canonical, centre 0)"""
+    for j in range(L):
+        if j == site:
+            continue
+        t = np.asarray(mps.tensors[j])
+        if j < site:
+            g = np.einsum("sab,sac->bc", t.conj(), t)
+        else:
+            g = np.einsum("sab,scb->ac", t, t.conj())
+        dev = float(np.max(np.abs(g - np.eye(g.shape[0]))))
+        CANON["n"] += 1
+        CANON["worst"] = max(CANON["worst"], dev)
+        if not dev <= 1e-9:
+            CANON["bad"] += 1
+            CANON["detail"] = f"L={L} measured site {site}: site {j} is not {'left' if j < site else 'right'}-isometric (deviation {dev:.3e})"
+
+
 def spec():
-    return [{"name": "Generator.choice(p=...) never returns an index of probability 0", "ok": SPEC["bad"] == 0, "n": SPEC["n"]}]
+    return [{"name": "Generator.choice(p=...) never returns an index of probability 0", "ok": SPEC["bad"] == 0, "n": SPEC["n"]},
+            {"name": "hypothesis of measure_global: when MPS.measure(site) calls choice, every site left of `site` is left-isometric "
+                     "and every site right of it is right-isometric (input right-canonical with centre 0)",
+             "ok": CANON["bad"] == 0, "n": CANON["n"], "worst_residual": CANON["worst"], "detail": CANON["detail"]}]
 
 
 if __name__ == "__main__":
